@@ -876,7 +876,12 @@ pub fn c08_case(rng: &mut Rng, max_objects: usize) -> String {
     let which = rng.below(4) as u8;
     let rate = (rng.f64_range(0.5, 2.0) * 100.0).round() / 100.0;
     let (ar, cs, hp, od) = (
-        if rng.chance(1, 2) { Some((rng.f64_range(0.0, 11.0) * 10.0).round() / 10.0) } else { None },
+        // every third AR above 10: the approach time then drops below its lower anchor (450 ms)
+        if rng.chance(1, 2) {
+            Some((if rng.chance(1, 3) { rng.f64_range(10.1, 11.0) } else { rng.f64_range(0.0, 11.0) } * 10.0).round() / 10.0)
+        } else {
+            None
+        },
         if rng.chance(1, 2) { Some((rng.f64_range(0.0, 11.0) * 10.0).round() / 10.0) } else { None },
         if rng.chance(1, 2) { Some((rng.f64_range(0.0, 11.0) * 10.0).round() / 10.0) } else { None },
         if rng.chance(1, 2) { Some((rng.f64_range(0.0, 11.0) * 10.0).round() / 10.0) } else { None },
